@@ -248,7 +248,12 @@ def sql_varid(prog: Program) -> RuleResult:
             # identity test between a chain leaf and the selected variable, or an alias map keyed by the leaf variable
             if isinstance(n, ast.Compare) and any(isinstance(o, (ast.Is, ast.IsNot)) for o in n.ops):
                 t = src(n)
-                if "selected_variable" in t and "_type_" not in t:
+                # through one local: selected = self.select_like.selected_variable; leaf is not selected
+                for nm in [y.id for y in ast.walk(n) if isinstance(y, ast.Name)]:
+                    defs = [st.value for st in walk_local(g.node) if isinstance(st, ast.Assign) and any(isinstance(tg, ast.Name) and tg.id == nm for tg in st.targets)]
+                    if len(defs) == 1:
+                        t += " " + src(defs[0])
+                if "selected_variable" in t and "_type_" not in src(n):
                     uses_identity = True
                     evidence.append(f"{g.short}: {t}")
             if isinstance(n, ast.Subscript) and "alias" in src(n.value).lower() and "_id_" in src(n.slice):
@@ -382,6 +387,20 @@ def sql_varid(prog: Program) -> RuleResult:
         r.check(guarded, f"{j.short}#no-join-under-or", site(j, jc), src(jc)[:100], f"rejected while a disjunction is being translated (nesting-safe mark {sorted(nesting_safe)})",
                 "the equality is turned into an inner JOIN even inside a disjunction: the JOIN restricts every row and the equality disappears from the OR "
                 "(or_(f.parent == p.child, f.child.name == 'H1') returns nothing)")
+    # (3b) the join is built from the *last* attribute of each side and the table of the variable the chain starts from: whatever lies in
+    # between (d.handle in d.handle.world == h.world) is not in the ON clause. A longer chain is walked, or rejected.
+    last_only = any(isinstance(x, ast.Attribute) and x.attr == "_attr_name_" for x in walk_local(j.node))
+    walks = any(call_name(c) in ("_walk_attribute_chain", "_collect_attribute_chain", "translate_attribute") for c in calls_in(j.node))
+    rejects_chain = False
+    for t in cfg.nodes:
+        if t.kind == "test" and isinstance(t.stmt, ast.If) and any(isinstance(x, ast.Attribute) and x.attr == "_child_" for x in ast.walk(t.stmt.test)) \
+                and any(isinstance(c, ast.Call) and call_name(c) == "isinstance" for c in ast.walk(t.stmt.test)):
+            raises = [x for b in t.stmt.body for x in ast.walk(b) if isinstance(x, ast.Raise) and x.exc is not None]
+            if any(prog.is_subclass(j.module.resolve(x.exc.func if isinstance(x.exc, ast.Call) else x.exc) or "", err_base) for x in raises):
+                rejects_chain = True
+    r.check((not last_only) or walks or rejects_chain, f"{j.short}#chain-not-dropped", site(j), "", "a relationship at the end of a longer chain is walked or rejected",
+            "the join takes the last attribute name of each side and the table of the variable the chain starts from: d.handle.world == h.world is joined as d.world == h.world "
+            "(different rows whenever a drawer's handle lives in another world than the drawer)")
     # (4) the mark only means something while it is raised: the operands of the disjunction are translated *inside* the window between
     # raising and lowering it - by calls that run their callee then and there (a generator function, a generator expression or a lambda only
     # promise the work; it happens when the result is consumed, after the mark has been lowered)
@@ -748,5 +767,38 @@ def sql_state(prog: Program) -> RuleResult:
     return r
 
 
+def sql_exact_dao(prog: Program) -> RuleResult:
+    """A variable whose type has no DAO of its own cannot be answered from the database: the translator rejects it (MissingDAOError) because
+    get_dao_class finds nothing. That holds only while the lookup is *exact*: the DAO whose original class is the given class (or its
+    alternative mapping), not the DAO of a base class - a query over an unmapped subclass of a mapped class answered from the base's table
+    returns every row of the base where in-memory evaluation over persisted objects has no solution at all."""
+    r = RuleResult("SQL-EXACT-DAO", "a class is answered from the database only through the DAO mapped for exactly that class", floor=1)
+    f = prog.functions.get("krrood.ormatic.dao.get_dao_class")
+    if f is None:
+        raise AnalysisError("SQL-EXACT-DAO: krrood.ormatic.dao.get_dao_class vanished")
+    p = f.params[0]
+    cmps = [x for x in walk_local(f.node) if isinstance(x, ast.Compare) and any(isinstance(y, ast.Call) and call_name(y) == "original_class" for y in ast.walk(x))]
+    if not cmps:
+        raise AnalysisError("SQL-EXACT-DAO: get_dao_class no longer compares a DAO's original class")
+    # what the parameter may be re-bound to: its alternative mapping only
+    rebinds = [x.value for x in walk_local(f.node) if isinstance(x, ast.Assign) and any(isinstance(t, ast.Name) and t.id == p for t in x.targets)]
+    rebinds += [x.iter for x in walk_local(f.node) if isinstance(x, (ast.For, ast.comprehension)) and any(isinstance(t, ast.Name) and t.id == p for t in ast.walk(x.target))]
+    why = None
+    for x in cmps:
+        other = [o for o in [x.left] + list(x.comparators) if not any(isinstance(y, ast.Call) and call_name(y) == "original_class" for y in ast.walk(o))]
+        if len(x.ops) != 1 or not isinstance(x.ops[0], (ast.Eq, ast.Is)) or len(other) != 1 or not (isinstance(other[0], ast.Name) and other[0].id == p):
+            why = why or f"the DAO is chosen by `{src(x)[:60]}`"
+    for v in rebinds:
+        if not (isinstance(v, ast.Call) and call_name(v) == "get_alternative_mapping"):
+            why = why or f"the class looked up is re-bound to `{src(v)[:50]}`"
+    for y in walk_local(f.node):
+        if (isinstance(y, ast.Attribute) and y.attr in ("__mro__", "__bases__", "__base__")) or (isinstance(y, ast.Call) and call_name(y) in ("mro", "issubclass", "getmro")):
+            why = why or f"the lookup walks the class hierarchy ({src(y)[:40]})"
+    r.check(why is None, "get_dao_class#exact-class", site(f), src(cmps[0])[:80], "the DAO whose original class is exactly the given class (or its alternative mapping)",
+            f"{why}: a class without a DAO of its own (an unmapped subclass of a mapped class) is answered from the table of its base - eql_to_sql accepts the query and returns "
+            "the base class's rows, in memory it has no solutions over persisted objects; to_dao stores such an object as an instance of the base")
+    return r
+
+
 def run(prog: Program, tier: str) -> List[RuleResult]:
-    return [sql_reject(prog), sql_ops(prog), sql_varid(prog), sql_alias(prog), sql_fetch(prog), sql_membership(prog), sql_chain(prog), sql_state(prog)]
+    return [sql_reject(prog), sql_ops(prog), sql_varid(prog), sql_alias(prog), sql_fetch(prog), sql_membership(prog), sql_chain(prog), sql_state(prog), sql_exact_dao(prog)]
